@@ -25,7 +25,11 @@ def resolve_param(p: dict, doc: dict) -> dict | None:
     return p
 
 
+OVERRIDES: dict[str, str] = {}  # config content_type_overrides of the world being judged (set by the check)
+
+
 def supported_response_media(mt: str) -> str | None:
+    mt = OVERRIDES.get(mt, mt)
     base = mt.split(";")[0].strip().lower()
     if base.startswith("text/"):
         return "text"
@@ -37,6 +41,7 @@ def supported_response_media(mt: str) -> str | None:
 
 
 def body_kind(mt: str) -> str | None:
+    mt = OVERRIDES.get(mt, mt)
     base = mt.split(";")[0].strip().lower()
     if base == "application/x-www-form-urlencoded":
         return "form"
@@ -270,6 +275,8 @@ def check_body(exp_body: tuple | None, request_headers: dict, content: bytes, do
     base = ctype.split(";")[0].strip()
     if base.lower() != media_type.split(";")[0].strip().lower():
         return f"Content-Type {ctype!r} does not match the declared media type {media_type!r}"
+    if kind != "multipart" and _norm_mt(ctype) != _norm_mt(media_type):
+        return f"Content-Type {ctype!r} is not the declared media type {media_type!r} (parameters differ)"
     if kind == "json":
         try:
             got = json.loads(content.decode("utf-8"))
@@ -330,6 +337,10 @@ def check_body(exp_body: tuple | None, request_headers: dict, content: bytes, do
                     return f"multipart part {k!r} carries {text!r}, argument was {v!r}"
         return None
     return f"unknown body kind {kind}"
+
+
+def _norm_mt(mt: str) -> str:
+    return ";".join(part.strip().lower() for part in mt.split(";"))
 
 
 def _is_file_array(ps: dict, doc: dict) -> bool:
